@@ -96,6 +96,16 @@ def check(tier, replay):
     if not quick:
         b5, s5, _ = vlib.tlc_generate(work, "Gen_HDir.tla", "Gen_HDir_hist6.cfg", work.path("g_hist6.ndjson"), timeout=2400)
         gens["hist<=5 one tag (all)"] = load_gen(b5)
+    # the storage-aware refinement (specs/DDBlocks.tla: descriptor blocks, dirty flags, links, version descriptor):
+    # design check, the same model with the previous block NOT marked dirty must fail, and one behaviour per
+    # block-level transition at which the blocks matter (written in HDir's vocabulary, judged like the others)
+    mcb = vlib.tlc_check(work, "DDBlocks.tla", "MC_DDBlocks.cfg", need_actions=["BCreate", "BPut", "BDel", "BSetCache", "BReopen", "BSync"], timeout=1500)
+    rc0, out0 = vlib.run_tlc(work, "DDBlocks.tla", "MC_DDBlocks_noprev.cfg", workers=4, timeout=600)
+    if "is violated" not in out0:
+        raise InfraError("DDBlocks without the dirty mark on the previous block no longer violates its invariants: the model lost its teeth")
+    b6, s6, _ = vlib.tlc_generate(work, "Gen_DDBlocks.tla", "Gen_DDBlocks_cover.cfg", work.path("g_ddb.ndjson"), timeout=1200)
+    b6 = load_gen(b6)
+    gens["descriptor blocks: one behaviour per block-level transition (a block is chained; a flush with dirty blocks; ndds 4, <= 3 blocks)" + (" (sample)" if quick else "")] = sample(b6, 20000, 6) if quick else b6
     gens["ref-space"] = refspace_scenarios()
     behs = []
     for k, v in gens.items():
@@ -136,7 +146,10 @@ def check(tier, replay):
     keys = set(beh_key(b) for b in behs)
     nt = set(vlib.beh_key(b) for b in behs if nontrivial(b, MUT))
     rep.cov.update({
-        "states": mc["stats"]["distinct_states"], "transitions": mc["stats"]["states_generated"],
+        "states": mc["stats"]["distinct_states"] + mcb["stats"]["distinct_states"],
+        "transitions": mc["stats"]["states_generated"] + mcb["stats"]["states_generated"],
+        "design_models": "HDir (abstract map) and DDBlocks (descriptor blocks, dirty flags, links: refines HDir; FileHoldsDisk, MemIsMem, NoOrphans); "
+                         "DDBlocks without the dirty mark on the previous block violates them (checked on every run)",
         "traces_validated_against_impl": acc + acc2,
         "evaluations": len(behs), "distinct_nontrivial": len(nt),
         "behaviours_replayed": len(res), "replay_ok": len(okres),
@@ -148,7 +161,7 @@ def check(tier, replay):
         "exhaustive": True,
         "checker_cmd": "tlc MC_HDir / Gen_HDir / Trace_HDir; harness/drive.py",
         "trusted_base": ["TLC", "harness/drive.py + ops_h.py (ctypes call table)", "ASan/UBSan runtime"],
-        "mc_coverage": {k: v[1] for k, v in mc["coverage"].items()},
+        "mc_coverage": dict({k: v[1] for k, v in mc["coverage"].items()}, **{k: v[1] for k, v in mcb["coverage"].items()}),
         "timing_s": {"build": round(tbuild, 1), "drive": round(tdrive, 1), "validate": round(tval, 1)},
     })
     rep.assumptions += ["the library-owned version descriptor (tag 30) is excluded from listings and wildcard counts",
